@@ -320,7 +320,8 @@ def judge_same(ctx, case, resp):
 
 
 def setup(ctx):
-    ctx.rule = ("alphabet: models A(ns1,a) B(ns1,b) C(ns2,a) A2(ns1,a; other content) D(ns3,c) E(ns4,d; parses, does not build); "
+    ctx.rule = ("alphabet: models A(ns1,a) B(ns1,'a - b') C(ns2,a) A2(ns1,a; other content) D(ns3,c) E(ns4,d; parses, does not build) F(ns3/,'a-b': "
+                "namespace and name differ from D's / B's only by a slash / by blanks); "
                 "operations add/replace of each model, remove of each of the 16 namespace x name pairs and of an unknown pair, clear, "
                 "deploy (%d operations); after each one the response, the hook snapshot and evaluate(name, Who) for every name are "
                 "compared with a reference model written from the statement. bfs: every operation on every distinct observed state "
